@@ -19,6 +19,7 @@ def intC : String → Option IntC
   | "isTrue" => some .isTrue | "isFalse" => some .isFalse | "assertEqual" => some .assertEqual
   | "assertNotEqual" => some .assertNotEqual | "assertTrue" => some .assertTrue | "assertFalse" => some .assertFalse
   | "assertEqualMsg" => some .assertEqual | "assertNotEqualMsg" => some .assertNotEqual | "isEqualToHex" => some .isEqualTo
+  | "assertTrueMsg" => some .assertTrue | "assertFalseMsg" => some .assertFalse
   | _ => none
 
 def strC : String → Option StrC
